@@ -47,7 +47,7 @@ func main() {
 			"rejecting a type that would have been lossless is not a violation (only counted)",
 		},
 		Plan: func(tier string, seed int64) []kit.Batch {
-			nb, n, v := 12, 260, 20
+			nb, n, v := 14, 400, 20
 			if tier == "thorough" {
 				nb, n, v = 48, 6000, 50
 			}
@@ -396,6 +396,12 @@ func rejectClass(err error) string {
 	switch {
 	case strings.Contains(s, "serializes as {}"):
 		return "all-unexported-no-json"
+	case strings.Contains(s, "both serialize as"):
+		return "json-name-collision"
+	case strings.Contains(s, "pointer receiver"):
+		return "pointer-receiver-marshaler"
+	case strings.Contains(s, "has unexported field"):
+		return "mixed-unexported-no-json"
 	case strings.Contains(s, "no UnmarshalJSON"):
 		return "marshal-without-unmarshal"
 	case strings.Contains(s, "disallowed kind"):
